@@ -635,7 +635,12 @@ func (l *Logger) Export() *HAR {
 	curr := l.tail
 	for curr != nil {
 		curr = curr.next
-		es = append(es, curr)
+		// Hand out a copy: the logged entry may still be completed by
+		// RecordResponse after the lock is released, while the caller is
+		// reading (e.g. JSON encoding) the exported log.
+		e := *curr
+		e.next = nil
+		es = append(es, &e)
 		if curr == l.tail {
 			break
 		}
